@@ -54,12 +54,38 @@ def unit_worker(job):
                 if o.status in ("failed", "unknown"):
                     d["failures"].append(triage(c, mod, rep, o))
             d["xcheck"] = xcheck(c, mod, rep, prop)
+            if rep.error is not None and rep.error[0] in ("unsupported", "spec"):
+                # the code left the accepted subset: nothing is proved, but the contract is still evaluated natively on the
+                # scenario catalogue — a native violation is a violation however it was found
+                d["failures"].extend(native_only(c, mod, rep, prop))
             out.append(d)
         return out
     except Exception:  # noqa: BLE001
         return [{"unit": name, "error": ("crash", traceback.format_exc()), "obligations": [], "failures": [],
                  "covers": [], "bounded": [], "assumptions": [], "paths": 0, "time": 0, "solver_time": 0,
                  "file": "?", "qual": "?", "label": "", "src": None, "decorators": [], "outcomes": {}, "notes": []}]
+
+
+def native_only(c, mod, rep, prop):
+    from . import native
+    clauses = {k: v for k, v in c.post.items() if prop in c.props_of(k)}
+    if not clauses:
+        return []
+    try:
+        if c.scenarios is not None:
+            wit, n, errs = native.run_method_scenarios(c, mod, clauses, stop_after=2)
+        elif list(c.params.values()) == ["D"] and (c.via is not None or c.native is not None):
+            wit, n, errs = native.falsify(c, mod, rep.label, clauses, limit=300, stop_after=2)
+        else:
+            return []
+    except Exception:  # noqa: BLE001
+        return []
+    out = []
+    for w in (wit or [])[:6]:
+        out.append({"obligation": f"{rep.name}/{w['clause']}/native", "clause": w["clause"], "props": c.props_of(w["clause"]),
+                    "kind": "post", "backend": "native-scenarios", "solver_status": "failed", "havoc": [], "model": None,
+                    "witnesses": [w], "note": "unit outside the accepted subset; contract violated natively"})
+    return out
 
 
 def xcheck(c, mod, rep, prop):
